@@ -202,6 +202,30 @@ def r_rollback(repo, tier):
             out.inst(f.key + "::restore", {"restore": norm(restores[0]), "from_saved_bytes": ok})
             if not ok:
                 out.report(f.file, f.dqual, "restore %s" % norm(restores[0]), restores[0].lineno, "restored value is not derived from the instruction's own saved bytes")
+            elif isinstance(v, ast.Name):
+                # the snapshot is either taken before the append, or cut back by exactly the bytes that were appended
+                appended = {norm(a.value) for a in appends}
+                for n in ast.walk(fn):
+                    if isinstance(n, ast.Assign) and any(isinstance(x, ast.Name) and x.id == v.id for x in n.targets):
+                        sv = n.value
+                        shape = "other"
+                        if isinstance(sv, ast.Subscript) and isinstance(sv.slice, ast.Slice) and norm(sv.value) == "%s.bytes" % recv:
+                            sl = sv.slice
+                            if sl.lower is None and sl.upper is None:
+                                shape = "whole"
+                            elif sl.lower is None and sl.step is None and isinstance(sl.upper, ast.UnaryOp) and isinstance(sl.upper.op, ast.USub) and isinstance(sl.upper.operand, ast.Call) and norm(sl.upper.operand.func) == "len" and sl.upper.operand.args and norm(sl.upper.operand.args[0]) in appended:
+                                shape = "cut-by-appended"
+                            else:
+                                shape = "cut-by-other"
+                        elif norm(sv) in ("%s.bytes" % recv, "bytes(%s.bytes)" % recv):
+                            shape = "whole"
+                        out.inst(f.key + "::snapshot", {"snapshot": norm(n), "shape": shape, "appended": sorted(appended)})
+                        if shape == "cut-by-other":
+                            out.report(f.file, f.dqual, "snapshot %s" % norm(n), n.lineno, "the saved bytes are cut back by `%s`, not by the length of what was appended (%s): for variable-length specs (size 0) or any other bound the rollback removes the wrong bytes of a pending prefix instruction" % (norm(sv.slice), ", ".join(sorted(appended))))
+                        elif shape == "whole" and n.lineno > min(a.lineno for a in appends):
+                            out.report(f.file, f.dqual, "snapshot %s" % norm(n), n.lineno, "the bytes are saved after the append, so the rollback restores the appended bytes as well")
+                        elif shape == "other":
+                            out.undecide(f.file, f.dqual, norm(n), "snapshot expression not recognised")
         # attribute set / delete symmetry
         sets = [n for n in ast.walk(fn) if isinstance(n, ast.For) and any(isinstance(x, ast.Call) and norm(x.func) == "setattr" for b in n.body for x in ast.walk(b))]
         dels = [n for s in h.body for n in ast.walk(s) if isinstance(n, ast.For) and any(isinstance(x, ast.Call) and norm(x.func) == "delattr" for b in n.body for x in ast.walk(b))]
@@ -333,6 +357,31 @@ def r_globalw_decode(repo, tier):
         out.inst(f.key, {"function": f.key, "module_level_stores": len(ws)} if len(out.samples) < 2 or ws else None, nontrivial=True)
         for n, desc in ws:
             out.report(f.file, f.dqual, "store %s" % desc, n.lineno, "decode-time function writes module-level state %s (decode result of later calls may depend on earlier calls)" % desc)
+    # the decode driver itself: disassembler.__call__ and ispec.decode, with what they reach inside arch/core.py.
+    # Module-level and class-level stores are channels; in ispec.decode `self` is the spec object shared by every later
+    # call, so a store to one of its attributes is a channel as well (the pending instruction self.__i of the
+    # disassembler is the one piece of state the driver owns: R-RESET decides it).
+    cg = CallGraph(repo)
+    roots = [repo.func(CORE, "disassembler.__call__"), repo.func(CORE, "ispec.decode")]
+    drv = {k: v for k, v in cg.reachable(roots).items() if v.mod.rel == CORE}
+    for f in drv.values():
+        ws = global_writes(repo, f)
+        out.inst(f.key, {"function": f.key, "module_level_stores": len(ws)} if ws else None, nontrivial=True)
+        for n, desc in ws:
+            out.report(f.file, f.dqual, "store %s" % desc, n.lineno, "the decode driver writes module/class-level state %s: what a later call decodes can depend on what was decoded before" % desc)
+    dec = repo.func(CORE, "ispec.decode")
+    for n in ast.walk(dec.node):
+        tg = n.targets if isinstance(n, ast.Assign) else [n.target] if isinstance(n, (ast.AugAssign, ast.AnnAssign)) else []
+        for t in tg:
+            for e in t.elts if isinstance(t, (ast.Tuple, ast.List)) else [t]:
+                r = e
+                d = 0
+                while isinstance(r, (ast.Attribute, ast.Subscript)):
+                    r = r.value
+                    d += 1
+                if isinstance(r, ast.Name) and r.id == "self" and d >= 1:
+                    out.report(dec.file, dec.dqual, "store %s" % norm(e), n.lineno, "ispec.decode stores into the spec object (%s), which is shared by every later decode call" % norm(e))
+    out.stats["driver_functions"] = len(drv)
     # precondition lambdas
     npre = 0
     for s in decls:
